@@ -34,11 +34,13 @@ def make_dc(names):
     key = tuple(names)
     if key not in _dc_cache:
         # every field has a declared default (1, 0.0, '', None in turn): instances are always built with explicit values, some of
-        # which are equal (==) to the default without being the same value for dds (1.0, True, 0, -0.0)
+        # which are equal (==) to the default without being the same value for dds (1.0, True, 0, -0.0); every second field is left
+        # out of the comparison and some out of the repr of the dataclass (field(compare=False, repr=False)): still part of the value
         import typing
         dflt = [1, 0.0, "", None]
         _dc_cache[key] = dataclasses.make_dataclass("DC_" + "_".join(names) if names else "DC_empty",
-                                                    [(n, typing.Any, dataclasses.field(default=dflt[i % 4])) for i, n in enumerate(names)])
+                                                    [(n, typing.Any, dataclasses.field(default=dflt[i % 4], compare=(i % 2 == 0), repr=(i % 3 != 1)))
+                                                     for i, n in enumerate(names)])
     return _dc_cache[key]
 
 
